@@ -824,6 +824,36 @@ def build(tier='quick', seed=0):
     full.append(decl('any', 'Point', new_unchecked=True, validators=[V('predicate', 'pred_point', form='path', callee='pred_point')],
                      derives=['Debug'], tags=['unchecked']))
 
+    # ---------------- every derivable trait on its own (with its prerequisites), per family ------------
+    req1 = {'Copy': ['Clone'], 'Eq': ['PartialEq'], 'Ord': ['PartialEq', 'Eq', 'PartialOrd'], 'PartialOrd': ['PartialEq']}
+    single_sets = {
+        'int': ('i64', ['Debug', 'Clone', 'Copy', 'PartialEq', 'Eq', 'PartialOrd', 'Ord', 'Hash', 'AsRef', 'Deref', 'Borrow', 'Into', 'Display', 'FromStr', 'TryFrom',
+                        'Serialize', 'Deserialize', 'Arbitrary'], [V('greater_or_equal', '1', 1, 'lit'), V('less', '1_000', 1000, 'lit')]),
+        'float': ('f32', ['Debug', 'Clone', 'Copy', 'PartialEq', 'Eq', 'PartialOrd', 'Ord', 'AsRef', 'Deref', 'Borrow', 'Into', 'Display', 'FromStr', 'TryFrom',
+                          'Serialize', 'Deserialize', 'Arbitrary'], [V('finite'), V('greater_or_equal', '1', 1.0, 'lit'), V('less_or_equal', '1e3', 1000.0, 'lit')]),
+        'string': ('String', ['Debug', 'Clone', 'PartialEq', 'Eq', 'PartialOrd', 'Ord', 'Hash', 'AsRef', 'Deref', 'Borrow', 'Into', 'Display', 'FromStr', 'TryFrom',
+                              'Serialize', 'Deserialize', 'Arbitrary'], [V('not_empty'), V('len_char_max', '12', 12, 'lit')]),
+    }
+    for fam, (inner, traits, vs) in single_sets.items():
+        for tr in traits:
+            ds = [x for x in req1.get(tr, [])] + [tr]
+            full.append(decl(fam, inner, validators=vs, derives=ds, tags=['single-trait']))
+            if tr != 'TryFrom':
+                keep = [] if not (fam == 'float' and tr in ('Eq', 'Ord')) else None
+                if keep is not None:
+                    full.append(decl(fam, inner, sanitizers=[S('trim')] if fam == 'string' else [S('with', '|x| x', 'closure')], derives=ds,
+                                     tags=['single-trait']))
+    # ---------------- generic newtype directly over the type parameter --------------------------------
+    # (Into / TryFrom cannot be implemented for a newtype directly over `T`: orphan rule E0210, blanket TryFrom E0119)
+    gen_ds = ['Debug', 'Clone', 'PartialEq', 'Eq', 'PartialOrd', 'Ord', 'Hash', 'AsRef', 'Deref', 'Borrow', 'Display', 'FromStr', 'Serialize', 'Deserialize']
+    bnd = '<T: core::fmt::Debug + Clone + Ord + core::hash::Hash + core::fmt::Display + core::str::FromStr + Default>'
+    full.append(decl('any', 'T', generics=bnd, derives=gen_ds + ['From', 'Default'], default={'text': 'T::default()', 'value': None}, tags=['generic-param']))
+    full.append(decl('any', 'T', generics=bnd, validators=[V('predicate', '|v| *v != T::default()', form='closure')], derives=gen_ds, tags=['generic-param']))
+    full.append(decl('any', 'T', generics=bnd, sanitizers=[S('with', '|v: T| v.clone().max(v)', 'closure')], validators=[V('predicate', '|v| *v != T::default()', form='closure')],
+                     derives=gen_ds, tags=['generic-param']))
+    full.append(decl('any', '(A, B)', generics='<A: Clone + PartialEq, B: Clone + PartialEq>', validators=[V('predicate', '|p| p.0 == p.0', form='closure')],
+                     derives=['Clone', 'PartialEq', 'AsRef', 'Deref', 'Into', 'TryFrom', 'Borrow'], tags=['generic-param']))
+
     # ---------------- layouts (C02) ---------------------------------------------------
     orders = [['derive', 'validate', 'sanitize'], ['validate', 'derive', 'sanitize', 'default'], ['default', 'sanitize', 'derive', 'validate'],
               ['const_fn', 'validate', 'derive'], ['new_unchecked', 'derive', 'validate', 'const_fn']]
@@ -934,6 +964,24 @@ def build(tier='quick', seed=0):
     for i, ch in enumerate(chunks):
         crates[f'cfull{i}'] = {'features': ['serde', 'arbitrary', 'new_unchecked', 'regex'], 'std': True,
                                'prelude': PRELUDE_STD + PRELUDE_REGEX + extra + numeric_prelude(), 'decls': ch}
+    bare = []
+    for d in full:
+        if len(bare) >= (400 if thorough else 90):
+            break
+        gated = {'Serialize', 'Deserialize', 'Arbitrary'}
+        if d['new_unchecked'] or any(v['kind'] == 'regex' for v in d['validators']) or d.get('split'):
+            continue
+        if not ({'single', 'pair', 'order', 'sanitize', 'custom', 'default', 'finite', 'predicate', 'single-trait', 'generic-param'} & set(d['tags'])):
+            continue
+        if _counter[0] % 1 == 0 and (len(bare) < 30 or rnd.random() < 0.12):
+            nd = copy.deepcopy(d)
+            nd['derives'] = [x for x in nd['derives'] if x not in gated]
+            nd['tags'] = nd['tags'] + ['bare']
+            bare.append(nd)
+    for i, d in enumerate(bare):
+        d['name'] = f'B{i:04d}'
+    crates['cbare'] = {'features': [], 'std': True, 'bare': True,
+                       'prelude': PRELUDE_STD + extra + numeric_prelude(), 'decls': bare}
     crates['cnostd'] = {'features': ['serde', 'arbitrary'], 'std': False,
                         'prelude': PRELUDE_NOSTD + numeric_prelude(), 'decls': nostd}
     return crates
